@@ -67,6 +67,8 @@ def gen_trans(rng, prog):
     rec = {"kind": kind, "collapse": None}
     if rng.random() < 0.25:
         rec["collapse"] = pick(rng, [2, 2, 3])
+    if prog.get("perfect3"):
+        rec["collapse"] = pick(rng, [3, 3, 2, None])
     if kind == "loop+parallel":
         rec["directive"] = fgen.weighted(rng, [(6, "do"), (2, "paralleldo"),
                                                (1, "teamsdistributeparalleldo"
